@@ -91,10 +91,13 @@ QUICK_REACTIONS = ["jpsi_gamma_pi0_pi0", "jpsi_pi0_pip_pim", "etac_lambda_lambda
                    "jpsi_k0_sigma_pbar_N", "jpsi_kk_pipi", "d0_k_3pi_cascade", "jpsi_k0_sigma_pbar_partial"]
 
 
+THOROUGH_EXTRA = ["jpsi_gamma_pi0_pi0_f2", "d0_k_pi_pi0", "jpsi_gamma_p_pbar", "jpsi_full_p_pbar"]
+
+
 def config_space(tier: str, reactions: list[str] | None = None) -> list[Config]:
     """quick: a covering subset (each option value appears with each reaction); thorough: the full product."""
     out: list[Config] = []
-    names = reactions or [n for n in zoo.REACTIONS if tier == "thorough" or n in QUICK_REACTIONS]
+    names = reactions or (QUICK_REACTIONS + (THOROUGH_EXTRA if tier == "thorough" else []))
     for nm in names:
         aligns = ["none", "axis"] + (["dpd1", "dpd2", "dpd3"] if n_final(nm) == 3 else [])
         forms = ["helicity", "canonical-helicity"]
